@@ -1,9 +1,13 @@
 import AdaptiveProofs.Lemmas.LNDPop
 import AdaptiveProofs.Lemmas.LNDSubSound
 import AdaptiveProofs.Lemmas.LNDAsk
+import AdaptiveProofs.Lemmas.LNDFresh
 
 /-! A small concrete environment (two triangles of a square, one pending point) used by the non-vacuity
-examples of Props/C04.lean. -/
+examples of Props/C04.lean.  The oracles `choose` / `pis` are total and truthful in the sense of `ChooseGeom` and
+`ChooseLocal`: the point chosen in a point list is a new id (`sum + 1`: 4 for the triangle `[0,1,2]`, 7 for
+`[1,2,3]`, 6/7/8 for the three pieces of `[0,1,2]` around the pending point 4), `point_in_simplex` accepts a point
+for the list it was chosen in, and the points chosen in the pieces of `[0,1,2]` for `[0,1,2]`. -/
 namespace LND
 def exEnv : Env Int where
   dim := 2
@@ -19,8 +23,8 @@ def exEnv : Env Int where
   rnd x := x
   lossFn pts _ := if pts = [0, 1, 2] then 6 else 4
   vol pts := if pts.contains 4 then 1 else 3
-  pis p pts := p == 4 && pts == [0, 1, 2]
-  choose _ := 4
+  pis p pts := p == pts.sum + 1 || (pts == [0, 1, 2] && (p == 6 || p == 7 || p == 8))
+  choose pts := pts.sum + 1
   triInit n := n == 3
   triSimps n := if n = 3 then [[0, 1, 2]] else if n = 4 then [[0, 1, 2], [1, 2, 3]] else []
   triAdd n _ := if n = 3 then some ([], [[1, 2, 3]]) else none
@@ -147,5 +151,106 @@ def exOps2 : List (Op Int) := exOps ++ [.removeUnfinished, .ask 1 true]
 theorem exRun2 : ∃ s, run exEnv (init exEnv) exOps2 = .ok s ∧ s.book.geomOK = true ∧
     s.tri = some [0, 1, 2, 3] ∧ s.pending = [4] ∧ s.book.subs = [([0, 1, 2], [0, 1, 2, 4])] :=
   ⟨_, rfl, rfl, rfl, rfl, rfl⟩
+
+/-! ### the hypotheses of the ghost-free queue theorems and of the freshness theorem -/
+
+theorem exEnv_chooseGeom : ChooseGeom exEnv where
+  inside := fun _ => rfl
+  inSimplex := by intro pts; simp [exEnv]
+  inOwner := by
+    intro sv ss hss
+    simp only [exEnv] at hss
+    split at hss
+    · rename_i h; subst h
+      simp only [List.mem_cons, List.not_mem_nil, or_false] at hss; subst hss
+      decide
+    · split at hss
+      · rename_i h; subst h
+        simp only [List.mem_cons, List.not_mem_nil, or_false] at hss
+        rcases hss with rfl | rfl | rfl <;> decide
+      · exact absurd hss (by simp)
+  split := by
+    intro sv ss hss D A hadd
+    simp only [exEnv] at hss
+    split at hss
+    · rename_i h; subst h
+      simp only [List.mem_cons, List.not_mem_nil, or_false] at hss; subst hss
+      decide
+    · split at hss
+      · rename_i h; subst h
+        simp only [List.mem_cons, List.not_mem_nil, or_false] at hss
+        rcases hss with rfl | rfl | rfl <;> (simp [exEnv] at hadd)
+      · exact absurd hss (by simp)
+  nodup := by
+    intro n
+    simp only [exEnv]
+    split
+    · decide
+    · split <;> decide
+
+theorem le_sum_of_mem_nat {l : List Nat} {x : Nat} (h : x ∈ l) : x ≤ l.sum := by
+  induction l with
+  | nil => exact absurd h (by simp)
+  | cons a t ih =>
+    simp only [List.sum_cons]
+    rcases List.mem_cons.1 h with rfl | h
+    · omega
+    · have := ih h; omega
+
+theorem exEnv_chooseLocal : ChooseLocal exEnv where
+  notCorner := by
+    intro pts hc
+    have := le_sum_of_mem_nat hc
+    simp only [exEnv] at this
+    omega
+  notVertex := by
+    intro sv ss hss
+    simp only [exEnv] at hss
+    split at hss
+    · rename_i h; subst h
+      simp only [List.mem_cons, List.not_mem_nil, or_false] at hss; subst hss
+      decide
+    · split at hss
+      · rename_i h; subst h
+        simp only [List.mem_cons, List.not_mem_nil, or_false] at hss
+        rcases hss with rfl | rfl | rfl <;> decide
+      · exact absurd hss (by simp)
+
+theorem exRun0' : ∃ s, run exEnv (init exEnv) exOps0 = .ok s ∧ s.data = [0, 1, 2, 3] ∧ s.pending = [] ∧
+    s.tri = some [0, 1, 2, 3] ∧ s.book.subs = [] ∧
+    ∃ s', ask exEnv s 1 true = .ok ([(4, 6)], s') :=
+  ⟨_, rfl, rfl, rfl, rfl, rfl, _, rfl⟩
+
+/-- in the state after the four `tell`s `_pop_highest_existing_simplex` pops the simplex `[0,1,2]` -/
+theorem exPop0 {s : State Int} (h : run exEnv (init exEnv) exOps0 = .ok s) :
+    ∃ e q, popHighest exEnv (exEnv.triSimps 4) s.book.subs s.book.queue = some (e, q) ∧ e.simplex = [0, 1, 2] := by
+  obtain ⟨s0, h0, hp⟩ : ∃ s0, run exEnv (init exEnv) exOps0 = .ok s0 ∧ ∃ e q,
+      popHighest exEnv (exEnv.triSimps 4) s0.book.subs s0.book.queue = some (e, q) ∧ e.simplex = [0, 1, 2] :=
+    ⟨_, rfl, _, _, rfl, rfl⟩
+  rw [h] at h0
+  simp only [Except.ok.injEq] at h0
+  subst h0
+  exact hp
+
+/-- `ChooseFresh` holds for the `ask(1)` after the four `tell`s (by the second layer: every evaluated or pending
+point lying in a simplex is one of its corners), and that `ask` returns the new point 4 -/
+theorem exFresh : ∃ s, run exEnv (init exEnv) exOps0 = .ok s ∧ ChooseFresh exEnv 1 s ∧
+    s.data = [0, 1, 2, 3] ∧ s.pending = [] ∧ ∃ s', ask exEnv s 1 true = .ok ([(4, 6)], s') := by
+  obtain ⟨s, h, hd, hp, ht, hsub, ha⟩ := exRun0'
+  refine ⟨s, h, ?_, hd, hp, ha⟩
+  refine chooseFresh_of_bound exEnv exEnv_triGeom exEnv_subGeom exEnv_chooseGeom exEnv_chooseLocal 1
+    (run_subVerts exEnv exEnv_triGeom exOps0 h) ⟨?_, fun _ _ _ => trivial⟩
+  intro _ t htt
+  have e : t = s := touchTri_tri_some exEnv htt ht
+  subst e
+  refine ⟨?_, fun hn => by rw [ht] at hn; exact absurd hn (by simp)⟩
+  intro vs hvs x hx p hpm hpis
+  rw [ht] at hvs
+  simp only [Option.some.injEq] at hvs
+  subst hvs
+  rw [hd, hp] at hpm
+  have hx' : x = [0, 1, 2] ∨ x = [1, 2, 3] := by simpa [exEnv] using hx
+  have hp' : p = 0 ∨ p = 1 ∨ p = 2 ∨ p = 3 := by simpa using hpm
+  rcases hx' with rfl | rfl <;> rcases hp' with rfl | rfl | rfl | rfl <;> exact absurd hpis (by decide)
 
 end LND
